@@ -12,6 +12,7 @@ use std::panic::{catch_unwind, AssertUnwindSafe};
 
 mod c01;
 mod c02;
+mod c06;
 mod c07;
 mod c13;
 
@@ -41,6 +42,7 @@ fn run_case(line: &str) -> String {
     // every module answers for the case kinds it knows
     None.or_else(|| c01::dispatch(kind, &f))
         .or_else(|| c02::dispatch(kind, &f))
+        .or_else(|| c06::dispatch(kind, &f))
         .or_else(|| c07::dispatch(kind, &f))
         .or_else(|| c13::dispatch(kind, &f))
         .unwrap_or_else(|| format!("UNKNOWN-KIND {kind}"))
